@@ -85,13 +85,17 @@ Definition at_ph (k : nat) (s : scratch) : scratch := mkS k (ids s) (rows s) (to
 
 Inductive nxt := Cont (s : scratch) | Done (r : outcome) (own' : list N).
 
-Definition resolve (slots : list (path * N)) (own : list N) (rs : list refspec) : list N :=
+(* a reference names a dataset the SET-UP program stored (table fixed when the clients start; inside the set-up program
+   itself the table is still growing, so the current datasets are consulted) or the client's own earlier puts *)
+Definition resolve (slots : list (path * N)) (g : gstate) (own : list N) (rs : list refspec) : list N :=
   flat_map (fun r => match r with
-                     | RKey run det => match plookup (run, det) slots with Some i => [i] | None => [] end
+                     | RKey run det => match plookup (run, det) slots with
+                                       | Some i => [i]
+                                       | None => map d_id (filter (fun d => (d_run d =? run) && (d_det d =? det)) (dsets g)) end
                      | ROwn => own end) rs.
 
-(* ---- emptyTrash: read trash rows + preserved paths; delete files one by one; delete records; delete trash rows *)
-Definition ET_READ := 10%nat. Definition ET_FILES := 11%nat. Definition ET_RECS := 12%nat. Definition ET_TRASH := 13%nat.
+(* ---- emptyTrash: read trash rows + preserved paths; delete files one by one; delete records and trash rows (one block) *)
+Definition ET_READ := 10%nat. Definition ET_FILES := 11%nat. Definition ET_RECS := 12%nat.
 
 Definition with_files (g : gstate) f := mkG (colls g) (chains g) (dsets g) (tags g) (loc g) (trashl g) (recs g) f (dtypes g) (next g).
 Definition with_recs (g : gstate) r := mkG (colls g) (chains g) (dsets g) (tags g) (loc g) (trashl g) r (files g) (dtypes g) (next g).
@@ -116,8 +120,9 @@ Definition et_step (g : gstate) (own : list N) (s : scratch) : gstate * nxt :=
       | p :: rest => (with_files g (premove p (files g)),
                       Cont (mkS (match rest with [] => ET_RECS | _ => ET_FILES end) [] (rows s) rest false))
       end
-  | 12%nat => (with_recs g (filter (fun r => negb (memN (fst r) (map fst (rows s)))) (recs g)), Cont (at_ph ET_TRASH s))
-  | _ => (with_trashl g (diffN (trashl g) (map fst (rows s))), Done OkU own)
+  | _ => (* e615ec5: the records and the trash rows are deleted in ONE block *)
+      (with_trashl (with_recs g (filter (fun r => negb (memN (fst r) (map fst (rows s)))) (recs g)))
+                   (diffN (trashl g) (map fst (rows s))), Done OkU own)
   end.
 
 (* ---- pieces of the registry *)
@@ -215,7 +220,7 @@ Definition mstep (fixed : bool) (slots : list (path * N)) (g : gstate) (own : li
       | Some _ => (g, Done (Err ECollType) own)
       end
   | Assoc tag rs =>
-      let is := resolve slots own rs in
+      let is := resolve slots g own rs in
       match lookup tag (colls g) with
       | None => (g, Done (Err EMissingColl) own)
       | Some CTagged =>
@@ -232,17 +237,16 @@ Definition mstep (fixed : bool) (slots : list (path * N)) (g : gstate) (own : li
       end
   | Prune rs =>
       match ph s with
-      | O => let is := resolve slots own rs in
+      | O => let is := resolve slots g own rs in
              (drop_dsets (trash_move g is) is, Cont (at_ph ET_READ s0))
       | _ => et_step g own s
       end
   | RemoveRun n =>
       match ph s with
-      | O => (g, Cont (at_ph 1 s))
-      | 1%nat => match lookup n (colls g) with
-                 | None => (g, Done (Err EMissingColl) own)
-                 | Some CRun => (g, Cont (at_ph 2 s))
-                 | Some _ => (g, Done (Err ETypeError) own) end
+      | O => match lookup n (colls g) with
+             | None => (g, Done (Err EMissingColl) own)
+             | Some CRun => (g, Cont (at_ph 2 s))
+             | Some _ => (g, Done (Err ETypeError) own) end
       | 2%nat => match lookup n (colls g) with
                  | None => (g, Done (Err EMissingColl) own)
                  | Some _ => (g, Cont (mkS 3 (ids_in_run g n) [] [] false)) end
@@ -261,7 +265,6 @@ Definition mstep (fixed : bool) (slots : list (path * N)) (g : gstate) (own : li
                                      | Some v' => Some (if v =? v' then OkB false else Err EConflict) | None => None end in
       match ph s with
       | O => match chk g with Some r => (g, Done r own) | None => (g, Cont (at_ph 1 s)) end
-      | 1%nat => (g, Cont (at_ph 2 s))
       | _ => match chk g with
              | Some r => (g, Done r own)
              | None => (with_dtypes g (dtypes g ++ [(n, v)]), Done (OkB true) own) end
@@ -273,7 +276,7 @@ Definition skind (fixed : bool) (o : op) (s : scratch) : N :=
   let et := fun k => match k with 10%nat => 1 | 11%nat => 2 | _ => 0 end in
   match o with
   | Prune _ => match ph s with O => 0 | k => et k end
-  | RemoveRun _ => match ph s with O => 1 | 1%nat | 2%nat | 3%nat => 0 | k => et k end
+  | RemoveRun _ => match ph s with O | 2%nat | 3%nat => 0 | k => et k end
   | EmptyTrash => match ph s with O => 1 | k => et k end
   | RegDT _ _ => match ph s with O => 1 | _ => 0 end
   | SetChain _ _ | Prepend _ _ | Extend _ _ | Unchain _ _ => 0
